@@ -7,6 +7,9 @@ import (
 
 // GlobCache implements an LRU cache for compiled glob patterns.
 type GlobCache struct {
+	// mu protects l, h and n and serializes the updates of m.
+	mu sync.Mutex
+
 	// m maps patterns to compiled glob matchers.
 	m sync.Map
 
@@ -41,6 +44,14 @@ func (c *GlobCache) Get(pattern string) (glob.Glob, error) {
 	glbCompiled, err := glob.Compile(pattern)
 	if err != nil {
 		return nil, err
+	}
+
+	c.mu.Lock()
+	defer c.mu.Unlock()
+
+	// another goroutine may have added the pattern in the meantime
+	if glb, ok := c.m.Load(pattern); ok {
+		return glb.(glob.Glob), nil
 	}
 
 	// if the LRU buffer is not full just append
